@@ -581,6 +581,33 @@ func (env *Env) typeOfExpr(e ast.Expr) types.Type {
 	return nil
 }
 
+// readEvent: when the contract of the function under verification orders or constrains the reads
+// of a local variable (`order read:scanErr after WriteRun`: an error out-parameter filled in by
+// lazily consumed iterators must not be looked at before their consumer ran), every read of that
+// variable in code is an event "read:<name>" of the call log. Other variables produce no events.
+func (env *Env) readEvent(x *ast.Ident, st *State) {
+	c := env.c
+	if env.contract || env.noReadEvent || c.fi == nil || c.fi.Contract == nil || c.inlineTag != "" {
+		return
+	}
+	name := "read:" + x.Name
+	wanted := false
+	for _, od := range c.fi.Contract.Orders {
+		if od[0] == name {
+			wanted = true
+		}
+	}
+	for _, ac := range c.fi.Contract.AtCalls {
+		if callee, _, _ := strings.Cut(ac.Callee, "@"); callee == name {
+			wanted = true
+		}
+	}
+	if !wanted {
+		return
+	}
+	env.callHooksNamed(name, nil, nil, st, &ast.CallExpr{Fun: &ast.Ident{NamePos: x.Pos(), Name: name}, Lparen: x.Pos(), Rparen: x.End()})
+}
+
 func (env *Env) evalIdent(x *ast.Ident, st *State) Val {
 	c := env.c
 	if v, ok := env.bound[x.Name]; ok {
@@ -611,6 +638,7 @@ func (env *Env) evalIdent(x *ast.Ident, st *State) Val {
 	switch ob := o.(type) {
 	case *types.Var:
 		if v, ok := st.vars[ob]; ok {
+			env.readEvent(x, st)
 			return v
 		}
 		// package-level variable: a global constant symbol (assumed not modified)
@@ -710,7 +738,9 @@ func (env *Env) evalUnary(x *ast.UnaryExpr, st *State) Val {
 			// &local: a fresh cell holding the variable's current value. Sound only if the
 			// variable is not written afterwards (checked syntactically: single definition).
 			if o, ok := env.resolveIdent(id).(*types.Var); ok && !o.IsField() && o.Parent() != o.Pkg().Scope() {
-				v := env.eval(id, st)
+				quiet := *env
+				quiet.noReadEvent = true // taking the address is not a read
+				v := quiet.eval(id, st)
 				ref := env.allocRef(st, v.Ty)
 				key := "ptr." + env.sortOf(v.Ty)
 				h := env.heapTerm(st, key, env.sortOf(v.Ty))
